@@ -267,5 +267,92 @@ fn one(ctx: &Ctx, rep: &mut Report, id: usize, cfg: Cfg, k: usize) {
             },
         }
     }
+    // an adaptive prover-side adversary: every scalar the prover draws (from transcript generators, challenges or
+    // the caller's generator) before it commits to anything is observed on an honest run, then replayed as candidate
+    // weights w of a folded opening check: blinding[a] + w_b and blinding[b] - w_a leave sum_j w_j * blinding[j]
+    // unchanged, yet the witness no longer opens commitments a and b
+    if m >= 2 {
+        let rng_seed = rng.next_u64();
+        let t = Context::plain().transcript();
+        let run = |bl: &Vec<Vec<Scalar>>| -> Option<Result<Result<RangeProof<P>, ProofError>, String>> {
+            let st = RangeStatement::init(prm.clone(), base_c.clone(), vec![None; m], None).ok()?;
+            let w = RangeWitness::init((0..m).map(|j| CommitmentOpening::new(base_vals[j], bl[j].clone())).collect()).ok()?;
+            let mut prng = FaultRng::new(RngKind::Healthy(rng_seed));
+            Some(no_panic(|| RangeProof::prove_with_rng(&mut t.clone(), &st, &w, &mut prng)))
+        };
+        merlin::probe::arm();
+        let honest = run(&base_bl);
+        let events = merlin::probe::take();
+        if matches!(honest, Some(Ok(Ok(_)))) {
+            let mut cand: Vec<Scalar> = vec![];
+            let push = |cand: &mut Vec<Scalar>, d: &[u8]| {
+                if cand.len() >= 3 * m + 12 {
+                    return;
+                }
+                if d.len() == 64 {
+                    let mut b = [0u8; 64];
+                    b.copy_from_slice(d);
+                    cand.push(Scalar::from_bytes_mod_order_wide(&b));
+                } else if d.len() == 32 {
+                    let mut b = [0u8; 32];
+                    b.copy_from_slice(d);
+                    cand.push(Scalar::from_bytes_mod_order(b));
+                }
+            };
+            for e in &events {
+                if matches!(e.kind, merlin::probe::Kind::RngFill | merlin::probe::Kind::Challenge) {
+                    push(&mut cand, &e.data);
+                }
+            }
+            // the caller's generator, read as 64-byte and as 32-byte draws
+            let mut streams: Vec<Vec<Scalar>> = vec![cand];
+            for width in [64usize, 32] {
+                let mut c = <rand_chacha::ChaCha12Rng as rand_core::SeedableRng>::seed_from_u64(rng_seed);
+                let mut v = vec![];
+                for _ in 0..m + 4 {
+                    let mut b = [0u8; 64];
+                    c.fill_bytes(&mut b[..width]);
+                    v.push(if width == 64 { Scalar::from_bytes_mod_order_wide(&b) } else { let mut x = [0u8; 32]; x.copy_from_slice(&b[..32]); Scalar::from_bytes_mod_order(x) });
+                }
+                streams.push(v);
+            }
+            let mut tried = 0usize;
+            'outer: for (si, c) in streams.iter().enumerate() {
+                let offsets = if c.len() >= m { (c.len() - m + 1).min(if ctx.thorough() { 12 } else { 5 }) } else { 0 };
+                for off in 0..offsets {
+                    let w = &c[off..off + m];
+                    let a = (k + off) % (m - 1);
+                    let b = a + 1;
+                    if w[a] == Scalar::ZERO && w[b] == Scalar::ZERO {
+                        continue;
+                    }
+                    let mut bl = base_bl.clone();
+                    let comp = (k + off) % cfg.ext;
+                    bl[a][comp] += w[b];
+                    bl[b][comp] -= w[a];
+                    tried += 1;
+                    rep.count("adaptive_opening_attacks", 1);
+                    rep.count("prove_calls", 1);
+                    let replay = json!({"tier": if ctx.thorough() {"thorough"} else {"quick"}, "seed": ctx.seed, "leg": leg, "case": id, "descr": {"group": GROUP, "cfg": cfg.json(), "attempt": "adaptive opening attack", "stream": si, "offset": off, "positions": [a, b]}});
+                    match run(&bl) {
+                        Some(Ok(Ok(_))) => {
+                            rep.violation(
+                                "C06 proof-for-invalid-witness [adaptive opening attack]",
+                                &format!("the prover emitted a proof for a witness whose blindings [{a}] and [{b}] were shifted by scalars the prover itself drew on an earlier run (stream {si}, offset {off}); the openings do not match the commitments"),
+                                replay,
+                            );
+                            break 'outer;
+                        },
+                        Some(Err(p)) => {
+                            rep.violation("C06 prove-panic [adaptive opening attack]", &format!("prover panicked: {p}"), replay);
+                            break 'outer;
+                        },
+                        _ => rep.count("refusals", 1),
+                    }
+                }
+            }
+            rep.eval(&(GROUP, cfg, "adaptive", tried));
+        }
+    }
     rep.sample(GROUP, json!({"cfg": cfg.json(), "values": base_vals, "promises": base_pr}));
 }
